@@ -7,6 +7,8 @@ bundled packages breaks one of these theorems.
 import Anko.Model.Cli
 import Anko.Gen.CliFlow
 import Anko.Props.CliFlowTable
+import Anko.Props.Tie.CliFlow
+import Anko.Props.Tie.CoreFlow
 
 namespace Anko.C18
 open Anko
@@ -61,6 +63,15 @@ Every leaf statement of main, parseFlags, setupEnv, runNonInteractive and runInt
 Props/CliFlowTable next to Model/Cli (the decision table of Gen/Cli covers the exit codes; this covers how the source text is obtained, which
 arguments the script sees and that nothing is printed on success). Any edit of these functions - also a harmless one - breaks this obligation by name; the check then
 searches model and implementation for a failing input (DESIGN.md 13.3). -/
-theorem command_line_tool_is_the_modelled_one : Gen.CliFlow.leaves = Tables.cliFlow := by decide +kernel
+theorem command_line_tool_is_the_modelled_one : Gen.CliFlow.leaves = Tables.cliFlow := Tie.cliFlow
+
+/-! ### Shared source ties
+
+The code this property is anchored in is also written down, leaf statement by leaf statement, by the tables below (each decided once in
+Props/Tie, `decide +kernel`, against the table regenerated from /repo on this run). A change of that code breaks the tie by name here too, and the check of
+this property then searches for a failing input - so a change that breaks this property through code whose primary table belongs to another
+property is not overlooked. -/
+/-- the builtins (core/*.go) -/
+theorem source_tie_CoreFlow : Gen.CoreFlow.leaves = Tables.coreFlow := Tie.coreFlow
 
 end Anko.C18
